@@ -120,7 +120,26 @@ func builtinDateSetTime(call FunctionCall) Value {
 	return date.Value()
 }
 
+// builtinDateConvertArguments applies ToNumber to the object arguments among the
+// first limit arguments, in order: 15.9.5.28-41 convert every argument the setter
+// reads, whatever the time value and the earlier arguments are. The receiver is
+// then put back to the time value it had on entry, from which the setter composes
+// the result it stores at the end; an exception leaves the receiver as it is.
+func builtinDateConvertArguments(call FunctionCall, limit int) []Value {
+	obj := call.thisObject()
+	entry := dateObjectOf(call.runtime, obj)
+	list := append([]Value(nil), call.ArgumentList...)
+	for index := 0; index < limit && index < len(list); index++ {
+		if list[index].IsObject() {
+			list[index] = float64Value(list[index].float64())
+		}
+	}
+	obj.value = entry
+	return list
+}
+
 func builtinDateBeforeSet(call FunctionCall, argumentLimit int, timeLocal bool) (*object, *dateObject, *ecmaTime, []int) {
+	call.ArgumentList = builtinDateConvertArguments(call, argumentLimit)
 	obj := call.thisObject()
 	date := dateObjectOf(call.runtime, call.thisObject())
 	if date.isNaN {
@@ -586,6 +605,7 @@ func builtinDateSetYear(call FunctionCall) Value {
 // builtinDateBeforeSetYear is builtinDateBeforeSet for setFullYear and
 // setUTCFullYear, which start from +0 when the date is invalid (15.9.5.40, 15.9.5.41 step 1).
 func builtinDateBeforeSetYear(call FunctionCall, timeLocal bool) (*object, *dateObject, *ecmaTime, []int) {
+	call.ArgumentList = builtinDateConvertArguments(call, 3)
 	obj := call.thisObject()
 	if date := dateObjectOf(call.runtime, obj); date.isNaN {
 		date.Set(0)
